@@ -117,7 +117,7 @@ static std::string ns(const std::string &x) { return std::to_string(x.size()) + 
 static bool gen_c07_nt(Rng &r, Plan &p, uint64_t i, bool qmtp) {
   p.knobs.set("daemon", qmtp ? "qmtpd" : "qmqpd");
   Json ctl = Json::obj(); Json env = Json::obj();
-  int64_t databytes = r.chance(0.6) ? (int64_t)r.pick(std::vector<int64_t>{1, 10, 50, 100, 1000}) : 0;
+  int64_t databytes = r.chance(0.6) ? (int64_t)r.pick(std::vector<int64_t>{1, 10, 50, 100, 1000, 1000, 4294967295LL, 4294967294LL}) : 0;   // (the two largest values of an unsigned int: 'limit + 1' must not wrap to zero)
   if (databytes) { if (r.chance(0.5)) ctl.set("databytes", (long long)databytes); else env.set("DATABYTES", std::to_string(databytes)); }
   if (r.chance(0.6)) { Json rh = Json::arr(); rh.push("l.example"); rh.push(".sub.example"); ctl.set("rcpthosts", rh); }
   p.knobs.set("control", ctl);
@@ -139,7 +139,7 @@ static bool gen_c07_nt(Rng &r, Plan &p, uint64_t i, bool qmtp) {
   };
   auto body_of = [&](bool dos, bool has_mode) -> std::string {
     int bk = (int)r.below(6); std::string dec;
-    if (databytes && bk < 3) { int64_t n = databytes + (int64_t)r.range(-1, 1); if (n < 0) n = 0; while ((int64_t)dec.size() < n) dec += (dec.size() % 17 == 16) ? '\n' : 'b'; }
+    if (databytes && databytes <= 100000 && bk < 3) { int64_t n = databytes + (int64_t)r.range(-1, 1); if (n < 0) n = 0; while ((int64_t)dec.size() < n) dec += (dec.size() % 17 == 16) ? '\n' : 'b'; }
     else if (bk == 3) { int n = (int)r.below(60); for (int q = 0; q < n; q++) dec += r.pick(std::vector<std::string>{"a", "\r", "\n", ".", "\r\n", "line\n"}); }
     else if (bk == 4) dec = "";
     else dec = "Subject: t\n\nhello\n.\n..dots\n";
@@ -183,7 +183,7 @@ static bool gen_c07(uint64_t seed, const std::string &tier, uint64_t i, Plan &p)
   p.knobs.set("oracles", oracle_list({"c07"}));
   { uint64_t proto = (i / 4) % 4; if (proto == 1 || proto == 3) return gen_c07_nt(r, p, i, true); if (proto == 2) return gen_c07_nt(r, p, i, false); }
   Json ctl = Json::obj(); Json env = Json::obj();
-  int64_t databytes = r.chance(0.5) ? (int64_t)r.pick(std::vector<int64_t>{1, 10, 100, 1000}) : 0;
+  int64_t databytes = r.chance(0.5) ? (int64_t)r.pick(std::vector<int64_t>{1, 10, 100, 1000, 1000, 4294967295LL, 4294967294LL}) : 0;
   if (databytes) { if (r.chance(0.5)) ctl.set("databytes", (long long)databytes); else env.set("DATABYTES", std::to_string(databytes)); }
   int64_t timeout = r.pick(std::vector<int64_t>{20, 1200}); if (timeout != 1200) ctl.set("timeoutsmtpd", (long long)timeout);
   p.knobs.set("control", ctl);
@@ -193,7 +193,7 @@ static bool gen_c07(uint64_t seed, const std::string &tier, uint64_t i, Plan &p)
   p.knobs.set("env", env);
   // body
   int bk = (int)r.below(8); std::string body;
-  if (databytes && bk < 4) { int64_t n = databytes + (int64_t)r.range(-1, 1); if (n < 0) n = 0; std::string raw; while ((int64_t)raw.size() < n) raw += (raw.size() % 40 == 39) ? '\n' : 'b'; raw.resize((size_t)n); if (!raw.empty()) raw.back() = '\n'; for (char c : raw) { if (c == '\n') body += "\r\n"; else body += c; } }
+  if (databytes && databytes <= 100000 && bk < 4) { int64_t n = databytes + (int64_t)r.range(-1, 1); if (n < 0) n = 0; std::string raw; while ((int64_t)raw.size() < n) raw += (raw.size() % 40 == 39) ? '\n' : 'b'; raw.resize((size_t)n); if (!raw.empty()) raw.back() = '\n'; for (char c : raw) { if (c == '\n') body += "\r\n"; else body += c; } }
   else if (bk == 4 || bk == 5) { int hops = (int)r.range(97, 102); for (int q = 0; q < hops; q++) body += r.pick(std::vector<std::string>{"Received: by x\r\n", "received: y\r\n", "Delivered-To: z\r\n", "DELIVERED-TO: w\r\n", "RECEIVED\r\n"}); if (r.chance(0.5)) body += "Subject: s\r\n"; body += "\r\nReceived: in body does not count\r\n"; }
   else body = "Subject: t\r\n\r\nhello\r\n..stuffed\r\n";
   std::string helo = r.chance(0.7) ? "HELO " + r.pick(hostile) + "\r\n" : std::string();
